@@ -199,9 +199,11 @@ class EsClient:
                     time.sleep(time_to_sleep)
                 else:
                     node = self._client.transport.node_pool.get()
+                    # responses without a body (e.g. to HEAD requests) carry no error type: name the HTTP status instead of "None"
+                    error = e.error if e.error not in (None, "None", "") else f"HTTP status {e.status_code}"
                     msg = (
                         "An error [%s] occurred while running the operation [%s] against your Elasticsearch metrics store on host [%s] "
-                        "at port [%s]." % (e.error, target.__name__, node.host, node.port)
+                        "at port [%s]." % (error, target.__name__, node.host, node.port)
                     )
                     self.logger.exception(msg)
                     # this does not necessarily mean it's a system setup problem...
